@@ -228,8 +228,22 @@ def check_case(ctx: Ctx, case) -> None:
                 ctx.fail("unknown-reported", f"unexpected log records {others[:3]}",
                          dict(rc, with_unknown=utext))
     # (f) required sections
-    for req in S.REQUIRED:
-        dtext = S.render_sections([s for s in secs if s[0] != req])
+    lookalikes = ["{} (backup)", "My{}", "{}2", "Old{}", "{}_old", "{}s", "x{}x", "{} ", " {}"]
+    for ri, req in enumerate(S.REQUIRED):
+        rest = [s for s in secs if s[0] != req]
+        hk = core.h64(text) >> (8 * ri)
+        if hk % 3:
+            # the required section is still lacking when a section whose name merely CONTAINS the required name
+            # (a backup copy, another spelling) is present: such a section is an unrecognised one
+            body = next(s[1] for s in secs if s[0] == req)
+            names = [lookalikes[(hk >> 2) % len(lookalikes)].format(req), req.lower(), req.upper(),
+                     req[:-1], req + req][: 1 + (hk >> 5) % 3]
+            extra = [(nm, body if (hk >> 7 + i) % 2 else []) for i, nm in enumerate(dict.fromkeys(names))
+                     if nm not in S.REQUIRED and nm not in S.HEADERS]
+            pos = (hk >> 9) % (len(rest) + 1)
+            rest = rest[:pos] + extra + rest[pos:]
+            ctx.classes["missing_required_with_lookalike"] += 1
+        dtext = S.render_sections(rest)
         try:
             L.parse(dtext)
         except ValueError:
